@@ -870,9 +870,7 @@ func (t *TriDense) SolveTo(dst *Dense, trans bool, b Matrix) error {
 			dst.Copy(work)
 		}
 	} else {
-		if rm, ok := bU.(RawMatrixer); ok {
-			dst.checkOverlap(rm.RawMatrix())
-		}
+		dst.checkOverlapMatrix(bU)
 		dst.Copy(b)
 	}
 
